@@ -85,7 +85,7 @@ class Fancy(Plain):
 REGS = ["r0", "r5", "r16", "r17", "r30"]
 
 
-def gen_lines(rng, n):
+def gen_lines(rng, n, depth=2):
     """structured lines: (label or None, kind, mnemonic/directive, operands)"""
     out = []
     labels = []
@@ -119,6 +119,22 @@ def gen_lines(rng, n):
                 out.append((lab, "dir", "dw", [("e", ("id", "pc")), ("e", ("b", "+", ("id", "pc"), ("c", 1, 0)))]))
         else:
             out.append((lab, "ins", rng.choice(["inc", "push", "com"]), [("r", rng.choice(REGS))]))
+        # conditional blocks: the directive lines of assembled AND of skipped branches are respelled like any other line
+        # (blanks, tabs, trailing comments of the three kinds, CRLF, radix and blanks inside the condition)
+        if depth > 0 and rng.random() < 0.12:
+            truth = rng.random() < 0.5
+            cond = ("c", rng.choice([1, 2, 255]) if truth else 0, 0)
+            if rng.random() < 0.3:
+                cond = ("b", "-", ("c", 9, 0), ("c", 8 if truth else 9, 0))
+            out.append((None, "dir", "if", [("e", cond)]))
+            out += [(None,) + x[1:] for x in gen_lines(rng, rng.randrange(0, 4), depth - 1) if x[2] not in ("rjmp", "rcall", "brne", "breq")]
+            if rng.random() < 0.4:
+                out.append((None, "dir", "elif", [("e", ("c", rng.choice([0, 1]), 0))]))
+                out += [(None,) + x[1:] for x in gen_lines(rng, rng.randrange(0, 3), depth - 1) if x[2] not in ("rjmp", "rcall", "brne", "breq")]
+            if rng.random() < 0.6:
+                out.append((None, "dir", "else", []))
+                out += [(None,) + x[1:] for x in gen_lines(rng, rng.randrange(0, 4), depth - 1) if x[2] not in ("rjmp", "rcall", "brne", "breq")]
+            out.append((None, "dir", "endif", []))
     return out
 
 
@@ -147,6 +163,58 @@ def render(lines, st):
     return st.eol.join(out) + st.eol
 
 
+COND_WORDS = ("if", "ifdef", "ifndef", "elif", "else", "endif", "define")
+LINE_TAILS = [";x", " ; note", "\t;", "//c", " // c", "/*c*/", " /* c */", " ;; .endif", " // .else", " /* .endif */", " ", "\t"]
+
+
+def respell_lines(rng, text):
+    """line-local rewrites of ANY program text that the property says cannot matter: a trailing comment of one of the three
+    kinds (glued or spaced) on lines that hold no quote or comment yet, extra blanks in front of lines that start with a blank,
+    '#' for '.' on the conditional directives (and back), upper case for a leading mnemonic, CRLF line ends.  Lines are kept
+    one-to-one, so error positions and message texts must not change either."""
+    from . import encgen
+    out = []
+    for ln in text.split("\n"):
+        bare = ln.rstrip("\r")
+        if not bare.strip() or any(ch in bare for ch in "\"';/\\"):
+            out.append(bare)
+            continue
+        body = bare
+        st = body.lstrip(" \t")
+        lead = body[:len(body) - len(st)]
+        word = st.split(None, 1)[0] if st else ""
+        if rng.random() < 0.3 and word[:1] in ".#" and word[1:].split("(")[0] in COND_WORDS:
+            st = ("#" if word[0] == "." else ".") + st[1:]
+        elif rng.random() < 0.3 and lead and word.lower() in encgen.ALL:
+            st = (word.upper() if rng.random() < 0.5 else word.capitalize()) + st[len(word):]
+        if lead and rng.random() < 0.3:
+            lead = rng.choice([" ", "\t", "   "]) + lead
+        body = lead + st
+        if rng.random() < 0.5:
+            body += rng.choice(LINE_TAILS)
+        out.append(body)
+    return ("\r\n" if rng.random() < 0.2 else "\n").join(out)
+
+
+def corpora(rng, n):
+    """program texts of the other properties' generators (conditional trees, symbol programs, data programs, general programs
+    with macros / conditionals / devices / faults): the spelling rules hold for all of them"""
+    from . import proggen, c08, c10, c06
+    out = []
+    for _ in range(n):
+        k = rng.randrange(5)
+        if k == 0:
+            t = c08.Tree(rng)
+            out.append(c08.texts_of(t.block(rng.choice([0, 1, 2]), [rng.random() < 0.4 for _ in range(rng.randrange(1, 4))], rng.random() < 0.5, True))[0])
+        elif k == 1:
+            out.append("\n".join(c10.gen_case(rng)[0]) + "\n")
+        elif k == 2:
+            out.append("\n".join(c06.gen_case(rng)[0]) + "\n")
+        else:
+            out.append("\n".join(proggen.program(rng, size=rng.choice([5, 12, 25]), faults=(k == 4))) + "\n")
+    return out
+
+
 def run(res):
     vh, exe = P.base(res, PROP)
     rng = random.Random(res.seed)
@@ -156,7 +224,15 @@ def run(res):
         orig = render(ls, Plain())
         for _ in range(3):
             pairs.append((orig, render(ls, Fancy(rng))))
-    obs = P.correspond(res, vh, exe, [p[0] for p in pairs] + [p[1] for p in pairs], "programs and their respellings")
+    cpairs = []
+    for t in corpora(rng, 400 if res.tier == "quick" else 100000):
+        for _ in range(2):
+            cpairs.append((t, respell_lines(rng, t)))
+    obs = P.correspond(res, vh, exe, [p[0] for p in pairs + cpairs] + [p[1] for p in pairs + cpairs], "programs and their respellings")
+    for orig, resp in cpairs:
+        if obs[orig][0] != obs[resp][0]:
+            P.fail(res, "builder::build_str", resp, "the observation of the original spelling (same result, same error line, same messages): " + obs[orig][0][:120],
+                   obs[resp][0][:120], "respelling-lines", extra=dict(original=orig))
     nok = 0
     for orig, resp in pairs:
         a, b = progrun.parse_obs(obs[orig][0]), progrun.parse_obs(obs[resp][0])
@@ -173,7 +249,10 @@ def run(res):
                 "plainly and three times with independent random choices at every token: trailing ';' '//' '/* */' comments, "
                 "comment-only / blank lines between statements, blanks and tabs around operands, commas, operators and parentheses, "
                 "CRLF, letter case of mnemonics / registers / index registers / function names / symbol references, radix of every "
-                "number; oracle: equal images and sizes")
+                "number; conditional blocks (nested, with .elif/.else) whose directive lines - in assembled and in skipped branches - are "
+                "respelled the same way; oracle: equal images and sizes.  Plus the program corpora of the C06 / C08 / C10 generators and "
+                "of the general program generator (macros, conditionals, devices, single faults), rewritten line by line (trailing comments, "
+                "leading blanks, '#' for '.', mnemonic case, CRLF); oracle: identical observation (result, error line, messages)")
     res.samples = [dict(original=pairs[0][0], respelled=pairs[0][1], observation=obs[pairs[0][1]][0][:80])]
     res.assume = ["directive-name case, 0X/0B prefixes and label indentation are not among the listed rewrites"]
 
